@@ -117,8 +117,8 @@ CHECKS = {
             'enumeration of standard reject/abort values and event positions + Hypothesis over the byte ranges, on a scripted provider',
             'Every standard (result, source, reason) triple and abort (source, reason) pair, generated values over '
             '0-255, four positions of the event (before, between, inside a half-consumed C-FIND stream, during a '
-            'multi-fragment C-STORE), five ways of leaving request_association (also when the peer refused all or most contexts), raw-socket loopback peers incl. release with responses in flight: the PDUs handed to the provider '
-            'and the exception type/fields seen by the caller are compared with what the other side did. One long-lived entity answers 300+ associations in a row (refused / served / aborted), each judged like the first.',
+            'multi-fragment C-STORE), eight ways of leaving request_association (normally, through Exceptions, a BaseException, an abandoned generator; also when the peer refused all or most contexts), raw-socket loopback peers incl. release with responses in flight: the PDUs handed to the provider '
+            'and the exception type/fields seen by the caller are compared with what the other side did. One long-lived entity answers 300+ associations in a row (refused / served / aborted), each judged like the first. Loopback: an A-ABORT arriving while a 24 MiB C-STORE is being sent.',
             'Scripted provider (vf/fakedul.py); what the provider itself does with these PDUs is C04/C05.',
             'fakedul', 'DESIGN.md#C14'),
     'C15': (True, 'exploration',
@@ -163,7 +163,7 @@ CHECKS = {
             'right association with the right context and content, survivors unaffected. Part b: 2-4 acceptor bodies '
             'sharing one AE run on scripted providers, interleaved at every provider send/receive in a '
             'Hypothesis-drawn (shrinkable, replayable) order; each must behave exactly as when run alone. '
-            '_new_msg_id() is checked from 16 concurrent threads. Part c: codecs, fragmentation, group length and status classification in 8 threads under a 1 us switch interval against single-threaded results. Part d: one requesting entity with 2-4 associations open at once on scripted peers refusing with codes 1-4: each proposes all configured classes and uses exactly what its own peer accepted. Part f: one long-lived entity on which 300 associations in a row fail in each of 7 ways, an ordinary association after each run must be served.',
+            '_new_msg_id() is checked from 16 concurrent threads. Part c: codecs, fragmentation, group length and status classification in 8 threads under a 1 us switch interval against single-threaded results. Part d: one requesting entity with 2-4 associations open at once on scripted peers refusing with codes 1-4: each proposes all configured classes and uses exactly what its own peer accepted. Part f: one long-lived entity on which 300 associations in a row fail in each of 7 ways, an ordinary association after each run must be served; over real TCP, silent connections must not delay other associations; message IDs of c_find() calls from several threads.',
             'Races finer than provider primitives are only sampled (part a), not enumerated.',
             'loopback+fakedul', 'DESIGN.md#C20'),
     'C18': (True, 'exploration',
@@ -230,7 +230,7 @@ ENGINES = [
     {'name': 'refpdu', 'path': 'vf/refpdu.py', 'serves_properties': ['C02', 'C03', 'C04', 'C05', 'C09', 'C10', 'C11', 'C12', 'C13', 'C14'],
      'kind_free_text': 'independent strict PDU reference encoder/parser (PS3.8 9.3, PS3.7 Annex D)'},
     {'name': 'simnet', 'path': 'vf/simnet.py', 'serves_properties': ['C03', 'C04', 'C05', 'C12', 'C13'],
-     'kind_free_text': 'real DULServiceProvider.run() executed in the calling thread against simulated socket/select/clock/user queue; scripted scenarios'},
+     'kind_free_text': 'real DULServiceProvider.run() executed in the calling thread against simulated socket/select(+poll)/clock (time, monotonic)/user queue; timer observed through its public methods; scripted scenarios incl. write faults, stalls, livelock detection'},
     {'name': 'ulmodel', 'path': 'vf/ulmodel.py', 'serves_properties': ['C04', 'C05', 'C12', 'C13'],
      'kind_free_text': 'executable PS3.8 Table 9-10 protocol machine (123 cells, 28 actions) with ARTIM, transport and reassembly tracking'},
     {'name': 'loopback', 'path': 'vf/loopback.py', 'serves_properties': ['C15', 'C20'],
